@@ -56,6 +56,10 @@ def states(tier, seed):
         if symset and be != 0.0:
             continue
         st.append(dict(part="wrap", sym=symset, n=n, comp=comp, alpha=al, beta=be, fam=fam))
+    # a multi-section surface dictionary handed to AeroPoint behaves exactly like the ordinary surface with the unified mesh and
+    # the same documented aerodynamic entries (ground plane, viscous / wave drag, zero-alpha coefficients, laminar fraction ...)
+    for nsec, ground, visc, wave, tail in itertools.product([2, 3], [False, True], [False, True], [False, True], [False, True]):
+        st.append(dict(part="msec", nsec=nsec, ground=ground, visc=visc, wave=wave, tail=tail, fam=fam))
     for symset, n in itertools.product([False, True], [1, 2, 3]):
         for which in ("demux", "mux"):
             st.append(dict(part="mux", sym=symset, n=n, which=which, fam=fam))
@@ -84,6 +88,60 @@ def mac_of(p, name, sym):
     S = p["ap.%s.S_ref" % name][0]
     mac = np.sum((0.5 * (ch[1:] + ch[:-1])) ** 2 * w) / S
     return mac * (2.0 if sym else 1.0)
+
+
+def part_msec(s):
+    from openaerostruct.geometry.geometry_group import build_sections
+    from openaerostruct.geometry.geometry_unification import unify_mesh
+
+    n, fam = s["nsec"], s["fam"]
+    meshes = []
+    for i in range(n):
+        m = np.zeros((3, 3, 3))
+        y = np.linspace(-(n - i) * 1.25, -(n - i - 1) * 1.25, 3)
+        m[:, :, 0] = (0.2 * (n - i) + 0.1 * np.abs(y - y[-1]))[None, :] + np.linspace(0.0, 1.0, 3)[:, None] * (1.0 + 0.15 * i + 0.01 * fam)
+        m[:, :, 1] = y[None, :]
+        m[:, :, 2] = 0.03 * np.abs(y)[None, :]
+        meshes.append(m)
+    aero = dict(CL0=0.06, CD0=0.012, with_viscous=s["visc"], with_wave=s["wave"], k_lam=0.3, t_over_c_cp=np.array([0.11]), c_max_t=0.35, S_ref_type="projected")
+    if s["ground"]:
+        aero["groundplane"] = True
+    ms = {"name": "wing", "is_multi_section": True, "num_sections": n, "sec_name": ["sec%d" % i for i in range(n)], "symmetry": True, "meshes": [m.copy() for m in meshes], "ref_axis_pos": 0.3}
+    ms.update({k: (v.copy() if isinstance(v, np.ndarray) else v) for k, v in aero.items()})
+    uni = unify_mesh(build_sections(ms))
+    ms["mesh"] = uni
+    plain = builders.aero_surface("wing", uni, True, ref_axis_pos=0.3, **aero)
+    extra = []
+    if s["tail"]:
+        tk = dict(with_viscous=s["visc"], CD0=0.01)
+        if s["ground"]:
+            tk["groundplane"] = True
+        extra = [builders.aero_surface("tail", gen.make_mesh("rect", 2, 2, "left", fam, span=3.0, chord=0.8, offset=[6.0, 0.0, 0.7]), True, **tk)]
+    fl = dict(v=200.0, alpha=4.0, rho=0.5, re=2e6, Mach_number=0.84 if s["wave"] else 0.5, cg=[0.5, 0.0, 0.1])
+    if s["ground"]:
+        fl["height_agl"] = 4.0
+    out = []
+    for first in (plain, ms):
+        try:
+            p = builders.build_aero([first] + [dict(e) for e in extra], fl)
+            p.run_model()
+        except Exception as exc:  # noqa: BLE001
+            if first is plain:
+                raise
+            # the ordinary surface with the same entries was analysed a moment ago: the multi-section form must work too
+            return dict(viol=[dict(sig=dict(oracle="multisection_sets_up", ground=s["ground"]), msg="the multi-section form of a surface that works as an ordinary surface fails: %s: %s" % (type(exc).__name__, str(exc)[:200]), measure=1.0)], nontrivial=True, digest="msec-fail", transitions=2, validated=1)
+        d = {"CL": p["ap.CL"], "CD": p["ap.CD"], "CM": p["ap.CM"], "wing_F": p["ap.aero_states.wing_sec_forces"], "wing_CL": p["ap.wing_perf.CL"], "wing_CD": p["ap.wing_perf.CD"], "wing_CDv": p["ap.wing_perf.CDv"], "wing_CDw": p["ap.wing_perf.CDw"], "S_ref": p["ap.wing.S_ref"]}
+        if s["tail"]:
+            d["tail_F"] = p["ap.aero_states.tail_sec_forces"]
+        out.append({k: np.array(v, dtype=float).copy() for k, v in d.items()})
+    viol, val = [], 0
+    for k in out[0]:
+        val += 1
+        sc = max(np.abs(out[0][k]).max(), 1e-12)
+        e = np.abs(out[0][k] - out[1][k]).max() / sc
+        if not e <= TOL:
+            viol.append(dict(sig=dict(oracle="multisection_equals_unified_surface", observable=k, ground=s["ground"]), msg="%s of the multi-section surface differs from the ordinary surface with the unified mesh by %.2e (ground %s, viscous %s, wave %s, tail %s)" % (k, e, s["ground"], s["visc"], s["wave"], s["tail"]), measure=float(e)))
+    return dict(viol=viol, nontrivial=True, digest=digest_arrays(out[0]["wing_F"]), transitions=2, validated=val)
 
 
 def part_perm(s):
